@@ -297,10 +297,30 @@ theorem gatherScriptIds_numbers : ∀ (l : List (Name × Option Int32)) (next : 
               | zero => simp
               | succ m => simp
 
-/-- the documented crash: the last representable script number makes `gather_script_ids` overflow -/
-theorem gatherScriptIds_panics_at_max (n : Name) (next : Int32) (seen : List Name) (rest : List (Name × Option Int32)) :
-    (gatherScriptIds next seen ((n, some Int32.maxValue) :: rest)).isPanic = true := by
-  simp [gatherScriptIds, Outcome.isPanic]
+/-- the last representable script number has no successor: it is an error, not a crash -/
+theorem gatherScriptIds_max_is_error (n : Name) (next : Int32) (seen : List Name) (rest : List (Name × Option Int32)) :
+    gatherScriptIds next seen ((n, some Int32.maxValue) :: rest) = .err eScriptTooLarge := by
+  simp [gatherScriptIds]
+
+/-- `gather_script_ids` never panics -/
+theorem gatherScriptIds_no_panic : ∀ (l : List (Name × Option Int32)) (next : Int32) (seen : List Name),
+    (gatherScriptIds next seen l).isPanic = false := by
+  intro l
+  induction l with
+  | nil => intro next seen; simp [gatherScriptIds, Outcome.isPanic]
+  | cons p rest ih =>
+    intro next seen
+    obtain ⟨n, num⟩ := p
+    simp only [gatherScriptIds]
+    split
+    · simp [Outcome.isPanic]
+    · split
+      · simp [Outcome.isPanic]
+      · have := ih (num.getD next + 1) (n :: seen)
+        cases hr : gatherScriptIds (num.getD next + 1) (n :: seen) rest with
+        | ok r => simp [Outcome.isPanic]
+        | err c => simp [Outcome.isPanic]
+        | panic c => simp [hr, Outcome.isPanic] at this
 
 theorem groupScripts_flatten : ∀ (items : List AnmItem) (cur : Option (List (Name × Int32))) (ids : List (Name × Int32))
     (gs : List (List (Name × Int32))), groupScripts cur items ids = some gs →
@@ -1041,46 +1061,52 @@ theorem stdInstances_ok : ∀ (insts objs : List Name) (out : List Nat), stdInst
         | zero => simp at hk; subst hk; exact ⟨i, hi, by simp⟩
         | succ k => simpa using h2 k n (by simpa using hk)
 
-/-- **C20, STD.** In a file that compiles, object names are unique, every instance names an
-object, and the index written for an instance is the position of the named object (as a 16-bit
-field: equal to the position whenever there are at most 65536 objects). -/
-theorem std_instance_index {objs insts : List Name} {out : List Nat} (h : compileStd objs insts = .ok out) :
-    objs.Nodup ∧ out.length = insts.length ∧
+/-- **C20, STD.** In every file the writer accepts, object names are unique, every instance names
+an object, and the index written for an instance (a 16-bit field) *is* the position of the named
+object, which is below the end-of-list marker 0xffff. -/
+theorem std_instance_index {objs insts : List Name} {q : Nat} {out : List Nat} (h : compileStd objs insts q = .ok out) :
+    objs.Nodup ∧ objs.length ≤ 65535 ∧ out.length = insts.length ∧
     ∀ (k : Nat) (n : Name), insts[k]? = some n → ∃ i : Nat, objs[i]? = some n ∧ (∀ j : Nat, objs[j]? = some n → j = i) ∧
-      out[k]? = some (i % 65536) ∧ (objs.length ≤ 65536 → out[k]? = some i) := by
+      out[k]? = some i ∧ i < 65535 := by
   unfold compileStd at h
   split at h
   · simp at h
   · rename_i hd
-    have hnd := hasDup_false (by simpa using hd)
-    obtain ⟨h1, h2⟩ := stdInstances_ok _ _ _ h
-    refine ⟨hnd, h1, ?_⟩
-    intro k n hk
-    obtain ⟨i, hi, ho⟩ := h2 k n hk
-    have hget := indexOf?_some hi
-    refine ⟨i, hget, ?_, ho, ?_⟩
-    · intro j hj
-      have := indexOf?_of_get hnd hj
-      rw [hi] at this
-      exact (Option.some.inj this).symm
-    · intro hlen
-      have : i < objs.length := by
+    split at h
+    · simp at h
+    · rename_i hbig
+      have hlen : objs.length ≤ 65535 := by
+        simp only [Bool.or_eq_true, decide_eq_true_eq, not_or, Nat.not_lt] at hbig
+        exact hbig.1
+      have hnd := hasDup_false (by simpa using hd)
+      obtain ⟨h1, h2⟩ := stdInstances_ok _ _ _ h
+      refine ⟨hnd, hlen, h1, ?_⟩
+      intro k n hk
+      obtain ⟨i, hi, ho⟩ := h2 k n hk
+      have hget := indexOf?_some hi
+      have hilt : i < objs.length := by
         rcases Nat.lt_or_ge i objs.length with h | h
         · exact h
         · rw [List.getElem?_eq_none h] at hget; simp at hget
-      rw [ho, Nat.mod_eq_of_lt (by omega)]
+      refine ⟨i, hget, ?_, ?_, by omega⟩
+      · intro j hj
+        have := indexOf?_of_get hnd hj
+        rw [hi] at this
+        exact (Option.some.inj this).symm
+      · rw [ho, Nat.mod_eq_of_lt (by omega)]
 
-/-- the full statement (index = position for every file) fails: the unchecked `as u16` wraps.
-`harness` replays it on the real code: 65537 objects, instance naming the last one -> index 0. -/
-def std_instance_index_full : Prop :=
-  ∀ (objs insts : List Name) (out : List Nat), compileStd objs insts = .ok out →
-    ∀ (k : Nat) (n : Name), insts[k]? = some n → ∃ i : Nat, objs[i]? = some n ∧ out[k]? = some i
-
-theorem std_instance_index_wraps (objs : List Name) (n : Name) (i : Nat) (hi : indexOf? n objs = some i)
-    (hbig : 65536 ≤ i) : stdInstances objs [n] = .ok [i % 65536] ∧ i % 65536 ≠ i := by
-  refine ⟨by simp [stdInstances, hi], ?_⟩
-  have := Nat.mod_lt i (show 65536 > 0 by decide)
-  omega
+/-- more objects (or quads) than the 16-bit fields can describe are rejected -/
+theorem std_too_many_is_error (objs insts : List Name) (q : Nat) (h : objs.length > 65535 ∨ q > 65535) :
+    ∀ out, compileStd objs insts q ≠ .ok out := by
+  intro out hc
+  unfold compileStd at hc
+  split at hc
+  · simp at hc
+  · split at hc
+    · simp at hc
+    · rename_i hbig
+      simp only [Bool.or_eq_true, decide_eq_true_eq, not_or, Nat.not_lt] at hbig
+      omega
 
 example : compileStd ["a", "b", "c"] ["c", "a", "c"] = .ok [2, 0, 2] := by decide
 example : compileStd ["a", "b"] ["z"] = .err eUnknown := by decide
@@ -1103,6 +1129,8 @@ example : compileAnm exAnm =
 example : compileAnm [.entry [⟨"a", some (.lit 1)⟩], .entry [⟨"a", none⟩], .script "s" none []] = .err eAmbValue := by decide
 /-- unknown name -/
 example : compileAnm [.entry [⟨"a", none⟩], .script "s" none [⟨.sprite, false, "zz"⟩]] = .err eUnknown := by decide
+/-- the last representable script number -/
+example : compileAnm [.entry [⟨"a", none⟩], .script "s" (some 2147483647) []] = .err eScriptTooLarge := by decide
 /-- cycle through an implicit id -/
 example : compileAnm [.entry [⟨"a", some (.name "b")⟩, ⟨"b", none⟩], .script "s" none []] = .err eCycle := by decide
 
